@@ -194,13 +194,15 @@ theorem processBunch_oinv {Q : Bunch → Prop} (c : Conn) (x : Channel) (b : Bun
   · exact ⟨h.of_chans rfl, Adds.emit _ _ (hf _)⟩
   · split
     · split
-      · rename_i q hq
-        refine ⟨setChan_oinv _ _ _ h ⟨?_, hx.2⟩, setChan_adds _ _ _ _⟩
-        intro y hy
-        rcases enqueue_mem' b x.inRec q hq y hy with rfl | hy
-        · exact hb
-        · exact hx.1 y hy
       · exact ⟨h.of_chans rfl, Adds.emit _ _ (hf _)⟩
+      · split
+        · rename_i q hq
+          refine ⟨setChan_oinv _ _ _ h ⟨?_, hx.2⟩, setChan_adds _ _ _ _⟩
+          intro y hy
+          rcases enqueue_mem' b x.inRec q hq y hy with rfl | hy
+          · exact hb
+          · exact hx.1 y hy
+        · exact ⟨h.of_chans rfl, Adds.emit _ _ (hf _)⟩
     · exact receivedNextBunch_oinv _ _ h hb
 
 /-- `ReceivedRawBunch`, provided whatever it decodes from these bits satisfies `Q` -/
